@@ -1,6 +1,7 @@
 package main
 
 import (
+	"go/constant"
 	"fmt"
 	"go/ast"
 	"go/token"
@@ -53,6 +54,40 @@ func runC20(c *Ctx) {
 			}
 		}
 	}
+	// the function installed as the reverse proxy's ModifyResponse hook is the rewriter, wherever the body assignment
+	// itself lives (it may have been moved into a helper)
+	for _, f := range allFuncDecls(p) {
+		if f.Body == nil {
+			continue
+		}
+		ast.Inspect(f.Body, func(n ast.Node) bool {
+			as, ok := n.(*ast.AssignStmt)
+			if !ok || len(as.Lhs) != 1 || len(as.Rhs) != 1 {
+				return true
+			}
+			se, ok := as.Lhs[0].(*ast.SelectorExpr)
+			if !ok || se.Sel.Name != "ModifyResponse" {
+				return true
+			}
+			var hookObj types.Object
+			switch r := ast.Unparen(as.Rhs[0]).(type) {
+			case *ast.SelectorExpr:
+				hookObj = info.ObjectOf(r.Sel)
+			case *ast.Ident:
+				hookObj = info.ObjectOf(r)
+			}
+			for _, g := range allFuncDecls(p) {
+				if hookObj != nil && info.Defs[g.Name] == hookObj {
+					for _, prm := range g.Type.Params.List {
+						if t := info.TypeOf(prm.Type); t != nil && t.String() == "*net/http.Response" && len(prm.Names) == 1 {
+							fd, resp = g, info.Defs[prm.Names[0]]
+						}
+					}
+				}
+			}
+			return true
+		})
+	}
 	if fd == nil {
 		c.viol("C20.R1", "anchor-lost:response-rewriter", "", "no function in package proxy assigns the Body of a *http.Response parameter")
 		return
@@ -64,11 +99,113 @@ func runC20(c *Ctx) {
 		return ok && info.ObjectOf(id) == resp
 	}
 
+	// the installer: the function that assigns the response's Body and length fields — the rewriter itself, or a
+	// package-local helper the rewriter hands the response to
+	fdI, respI := fd, resp
+	var installCall *ast.CallExpr
+	{
+		own := false
+		ast.Inspect(fd.Body, func(n ast.Node) bool {
+			if as, ok := n.(*ast.AssignStmt); ok {
+				for _, l := range as.Lhs {
+					if se, ok := l.(*ast.SelectorExpr); ok && se.Sel.Name == "Body" && isResp(se.X) {
+						own = true
+					}
+				}
+			}
+			return true
+		})
+		if !own {
+			ast.Inspect(fd.Body, func(n ast.Node) bool {
+				call, ok := n.(*ast.CallExpr)
+				if !ok {
+					return true
+				}
+				fn := calleeOf(info, call)
+				if fn == nil || fn.Pkg() != p.Types {
+					return true
+				}
+				for ai, a := range call.Args {
+					if !isResp(a) {
+						continue
+					}
+					for _, h := range allFuncDecls(p) {
+						if info.Defs[h.Name] != types.Object(fn) || h.Body == nil {
+							continue
+						}
+						k := 0
+						for _, prm := range h.Type.Params.List {
+							for _, nm := range prm.Names {
+								if k == ai {
+									po := info.Defs[nm]
+									assigns := false
+									ast.Inspect(h.Body, func(m ast.Node) bool {
+										if as, ok := m.(*ast.AssignStmt); ok {
+											for _, l := range as.Lhs {
+												if se, ok := l.(*ast.SelectorExpr); ok && se.Sel.Name == "Body" {
+													if id, ok := ast.Unparen(se.X).(*ast.Ident); ok && info.ObjectOf(id) == po {
+														assigns = true
+													}
+												}
+											}
+										}
+										return true
+									})
+									if assigns {
+										fdI, respI, installCall = h, po, call
+									}
+								}
+								k++
+							}
+						}
+					}
+				}
+				return true
+			})
+		}
+	}
+	isRespI := func(e ast.Expr) bool {
+		id, ok := ast.Unparen(e).(*ast.Ident)
+		return ok && info.ObjectOf(id) == respI
+	}
+	fcI := fc
+	if fdI != fd {
+		fcI = newFnCFG(fdI.Body, info)
+	}
 	// mutations of the response
 	var mutations []ast.Node
 	var bodyAssign, lenAssign *ast.AssignStmt
 	var allBodyAssigns []*ast.AssignStmt
 	var lenHeaderSet *ast.CallExpr
+	if fdI != fd {
+		// in the rewriter, the call of the installer is the mutation; the assignments themselves are read from the installer
+		mutations = append(mutations, installCall)
+		ast.Inspect(fdI.Body, func(n ast.Node) bool {
+			switch n := n.(type) {
+			case *ast.AssignStmt:
+				for _, l := range n.Lhs {
+					if se, ok := l.(*ast.SelectorExpr); ok && isRespI(se.X) {
+						switch se.Sel.Name {
+						case "Body":
+							bodyAssign = n
+							allBodyAssigns = append(allBodyAssigns, n)
+						case "ContentLength":
+							lenAssign = n
+						}
+					}
+				}
+			case *ast.CallExpr:
+				if se, ok := n.Fun.(*ast.SelectorExpr); ok && se.Sel.Name == "Set" && len(n.Args) == 2 {
+					if hs, ok := se.X.(*ast.SelectorExpr); ok && hs.Sel.Name == "Header" && isRespI(hs.X) {
+						if s, ok := constString(info, n.Args[0]); ok && strings.EqualFold(s, "Content-Length") {
+							lenHeaderSet = n
+						}
+					}
+				}
+			}
+			return true
+		})
+	}
 	ast.Inspect(fd.Body, func(n ast.Node) bool {
 		switch n := n.(type) {
 		case *ast.AssignStmt:
@@ -175,17 +312,81 @@ func runC20(c *Ctx) {
 			"r.ContentLength is not exactly Len() of the buffer installed as r.Body ("+types.ExprString(lenAssign.Rhs[0])+"): for gzip/br the header would count the decoded text, not the bytes sent")
 		c.check(pure(lenHeaderSet.Args[1], l2), "C20.R1", key+"|header-from-installed-buffer", c.pos(lenHeaderSet.Pos()), "Content-Length header = Len() of the buffer installed as r.Body",
 			"the Content-Length header is not exactly Len() of the buffer installed as r.Body ("+types.ExprString(lenHeaderSet.Args[1])+")")
+		// the encoder unit: where the buffer is created and the encoder is constructed over it — the installer itself,
+		// or (when the installer receives the buffer as a parameter) the helper whose result the rewriter passes in
+		fdE, bufE, fcE := fdI, bufObj, fcI
+		returnsBuffer := false
+		if fdI != fd && installCall != nil {
+			k := 0
+			for _, prm := range fdI.Type.Params.List {
+				for _, nm := range prm.Names {
+					if info.Defs[nm] == bufObj && k < len(installCall.Args) {
+						if aid, ok := ast.Unparen(installCall.Args[k]).(*ast.Ident); ok {
+							aobj := info.ObjectOf(aid)
+							fdE, bufE, fcE = fd, aobj, fc
+							// is it the result of a helper?
+							ast.Inspect(fd.Body, func(m ast.Node) bool {
+								as, ok := m.(*ast.AssignStmt)
+								if !ok || len(as.Rhs) != 1 {
+									return true
+								}
+								call, ok := as.Rhs[0].(*ast.CallExpr)
+								if !ok {
+									return true
+								}
+								for li, l := range as.Lhs {
+									if lid, ok := l.(*ast.Ident); ok && info.ObjectOf(lid) == aobj {
+										if hfn := calleeOf(info, call); hfn != nil && hfn.Pkg() == p.Types {
+											for _, h := range allFuncDecls(p) {
+												if info.Defs[h.Name] != types.Object(hfn) || h.Body == nil {
+													continue
+												}
+												var rb types.Object
+												if h.Type.Results != nil {
+													ri := 0
+													for _, r := range h.Type.Results.List {
+														for _, rn := range r.Names {
+															if ri == li {
+																rb = info.Defs[rn]
+															}
+															ri++
+														}
+													}
+												}
+												ast.Inspect(h.Body, func(x ast.Node) bool {
+													if ret, ok := x.(*ast.ReturnStmt); ok && li < len(ret.Results) {
+														if rid, ok := ast.Unparen(ret.Results[li]).(*ast.Ident); ok && rid.Name != "nil" {
+															rb = info.ObjectOf(rid)
+														}
+													}
+													return true
+												})
+												if rb != nil {
+													fdE, bufE, fcE, returnsBuffer = h, rb, newFnCFG(h.Body, info), true
+												}
+											}
+										}
+									}
+								}
+								return true
+							})
+						}
+					}
+					k++
+				}
+			}
+		}
 		// encoder writing into the buffer, and its Close
 		var encObj types.Object
-		ast.Inspect(fd.Body, func(n ast.Node) bool {
+		ast.Inspect(fdE.Body, func(n ast.Node) bool {
 			if as, ok := n.(*ast.AssignStmt); ok && len(as.Lhs) == 1 && len(as.Rhs) == 1 {
 				if call, ok := as.Rhs[0].(*ast.CallExpr); ok && len(call.Args) == 1 {
 					arg := ast.Unparen(call.Args[0])
 					if ue, ok := arg.(*ast.UnaryExpr); ok && ue.Op == token.AND {
 						arg = ast.Unparen(ue.X)
 					}
-					if id, ok := arg.(*ast.Ident); ok && info.ObjectOf(id) == bufObj {
-						if lid, ok := as.Lhs[0].(*ast.Ident); ok && lid.Name != "_" && info.ObjectOf(lid) != bufObj {
+					if id, ok := arg.(*ast.Ident); ok && info.ObjectOf(id) == bufE {
+						if lid, ok := as.Lhs[0].(*ast.Ident); ok && lid.Name != "_" && info.ObjectOf(lid) != bufE {
 							encObj = info.ObjectOf(lid)
 						}
 					}
@@ -196,17 +397,52 @@ func runC20(c *Ctx) {
 		if encObj == nil {
 			c.viol("C20.R1", key+"|encoder", c.pos(fd.Pos()), "no encoder constructed over the installed buffer was found")
 		} else {
-			closes := methodCallsOn(info, fd.Body, encObj, "Close")
+			closes := methodCallsOn(info, fdE.Body, encObj, "Close")
 			okClose := len(closes) > 0
-			for _, lc := range append(l1, l2...) {
-				dom := false
-				for _, cl := range closes {
-					if fc.dominates(cl, lc) {
-						dom = true
+			if returnsBuffer {
+				// the helper hands the buffer back: every return that carries it comes after the Close
+				ast.Inspect(fdE.Body, func(x ast.Node) bool {
+					ret, ok := x.(*ast.ReturnStmt)
+					if !ok {
+						return true
 					}
-				}
-				if !dom {
-					okClose = false
+					carries := len(ret.Results) == 0
+					for _, r := range ret.Results {
+						if rid, ok := ast.Unparen(r).(*ast.Ident); ok && info.ObjectOf(rid) == bufE {
+							carries = true
+						}
+					}
+					// error returns (a non-nil error as last result) need no Close
+					if len(ret.Results) > 0 && types.ExprString(ret.Results[len(ret.Results)-1]) != "nil" {
+						if rid, ok := ast.Unparen(ret.Results[0]).(*ast.Ident); !ok || info.ObjectOf(rid) != bufE {
+							carries = false
+						}
+					}
+					if !carries {
+						return true
+					}
+					dom := false
+					for _, cl := range closes {
+						if fcE.dominates(cl, ret) {
+							dom = true
+						}
+					}
+					if !dom {
+						okClose = false
+					}
+					return true
+				})
+			} else {
+				for _, lc := range append(l1, l2...) {
+					dom := false
+					for _, cl := range closes {
+						if fcE.dominates(cl, lc) {
+							dom = true
+						}
+					}
+					if !dom {
+						okClose = false
+					}
 				}
 			}
 			c.check(okClose, "C20.R1", key+"|close-before-len", c.pos(fd.Pos()), "the encoder's Close() dominates both Len() reads",
@@ -220,7 +456,7 @@ func runC20(c *Ctx) {
 		if ba == bodyAssign {
 			continue
 		}
-		followed := lenAssign != nil && lenHeaderSet != nil && fc.dominates(ba, lenAssign) && fc.dominates(ba, lenHeaderSet)
+		followed := lenAssign != nil && lenHeaderSet != nil && fcI.dominates(ba, lenAssign) && fcI.dominates(ba, lenHeaderSet)
 		c.check(followed, "C20.R1", fmt.Sprintf("%s|extra-body-assignment#%d", key, i+1), c.pos(ba.Pos()), "followed by both length updates",
 			"the rewriter installs a response body ("+types.ExprString(ba.Rhs[0])+") on a path that neither re-encodes it nor updates ContentLength and the Content-Length header: the headers still describe the upstream (compressed) bytes while the body is the decoded text — the client sees a length mismatch or invalid gzip/brotli data")
 	}
@@ -301,7 +537,77 @@ func runC20(c *Ctx) {
 		return true
 	})
 	if encSwitch == nil {
-		c.viol("C20.R2", key+"|encoding-switch", c.pos(fd.Pos()), "no switch over the Content-Encoding header found")
+		// the table form: a package-level map from encoding name to a codec (reader and writer constructors); each entry
+		// is the counterpart of a switch arm, a lookup miss the counterpart of the default arm (decided in R3 below by
+		// evaluating the rewriter on unknown encodings)
+		var table *ast.CompositeLit
+		for _, f := range p.Syntax {
+			ast.Inspect(f, func(n ast.Node) bool {
+				cl, ok := n.(*ast.CompositeLit)
+				if !ok {
+					return true
+				}
+				if _, isMap := info.TypeOf(cl).Underlying().(*types.Map); !isMap {
+					return true
+				}
+				for _, el := range cl.Elts {
+					if kv, ok := el.(*ast.KeyValueExpr); ok {
+						if k, ok := constString(info, kv.Key); ok && k == "gzip" {
+							table = cl
+						}
+					}
+				}
+				return true
+			})
+		}
+		if table == nil {
+			c.viol("C20.R2", key+"|encoding-switch", c.pos(fd.Pos()), "neither a switch over the Content-Encoding header nor a table of codecs keyed by encoding name was found")
+		} else {
+			hasEmpty := false
+			for _, el := range table.Elts {
+				kv := el.(*ast.KeyValueExpr)
+				label, _ := constString(info, kv.Key)
+				pkgs := map[string][]string{}
+				ast.Inspect(kv.Value, func(n ast.Node) bool {
+					if call, ok := n.(*ast.CallExpr); ok {
+						if fn := calleeOf(info, call); fn != nil && fn.Pkg() != nil && (strings.HasPrefix(fn.Name(), "NewReader") || strings.HasPrefix(fn.Name(), "NewWriter")) {
+							pkgs[fn.Pkg().Path()] = append(pkgs[fn.Pkg().Path()], fn.Name())
+						}
+					}
+					// constructors referenced as values (gzip.NewWriter stored directly)
+					if se, ok := n.(*ast.SelectorExpr); ok {
+						if fn, ok := info.Uses[se.Sel].(*types.Func); ok && fn.Pkg() != nil && (strings.HasPrefix(fn.Name(), "NewReader") || strings.HasPrefix(fn.Name(), "NewWriter")) {
+							pkgs[fn.Pkg().Path()] = appendUniq(pkgs[fn.Pkg().Path()], fn.Name())
+						}
+					}
+					return true
+				})
+				akey := fmt.Sprintf("%s|switch:Content-Encoding|arm:%q", key, label)
+				if label == "" {
+					hasEmpty = true
+					c.check(len(pkgs) == 0, "C20.R2", akey, c.pos(kv.Pos()), "identity encoding binds no codec", "the entry for an absent Content-Encoding binds a codec")
+					continue
+				}
+				ok := len(pkgs) == 1
+				for _, names := range pkgs {
+					r, w := false, false
+					for _, nm := range names {
+						if strings.HasPrefix(nm, "NewReader") {
+							r = true
+						}
+						if strings.HasPrefix(nm, "NewWriter") {
+							w = true
+						}
+					}
+					if !r || !w {
+						ok = false
+					}
+				}
+				c.check(ok, "C20.R2", akey, c.pos(kv.Pos()), fmt.Sprintf("reader and writer constructors from one package %v", keysOf(pkgs)),
+					fmt.Sprintf("the %q entry does not pair a NewReader and a NewWriter from the same package (%v): the body would be decoded with one codec and re-encoded with another while the Content-Encoding header still names the first", label, keysOf(pkgs)))
+			}
+			c.check(hasEmpty, "C20.R2", key+"|switch:Content-Encoding|has-identity", c.pos(table.Pos()), "the empty encoding has its own entry", "the codec table has no entry for the empty (identity) encoding")
+		}
 	} else {
 		hasDefault, hasEmpty := false, false
 		for _, cl := range encSwitch.Body.List {
@@ -384,112 +690,231 @@ func runC20(c *Ctx) {
 	}
 
 	// R3 ------------------------------------------------------------
-	skipTests := 0
-	marker := ""
-	for _, st := range fd.Body.List {
-		is, ok := st.(*ast.IfStmt)
-		if !ok {
+	// The two pass-through tests, decided by evaluating the rewriter's path conditions on concrete header values (the
+	// form of the tests — if, switch, helper — does not matter): with the skip marker "true", or with a content type
+	// that is not text/html, every feasible path leaves before anything of the response is mutated; with neither, a
+	// mutating path exists. The marker is the header that some function of the package Sets to "true" and the rewriter
+	// Gets.
+	setBy := map[string][]*ast.FuncDecl{}
+	for _, f := range allFuncDecls(p) {
+		if f.Body == nil {
 			continue
 		}
-		text := types.ExprString(is.Cond)
-		if is.Init != nil {
-			text = nodeText(c.fset, is.Init) + "; " + text
+		ast.Inspect(f.Body, func(n ast.Node) bool {
+			if call, ok := n.(*ast.CallExpr); ok && len(call.Args) == 2 {
+				if se, ok := call.Fun.(*ast.SelectorExpr); ok && se.Sel.Name == "Set" {
+					if k, ok := constString(info, call.Args[0]); ok {
+						if v, ok := constString(info, call.Args[1]); ok && v == "true" {
+							setBy[strings.ToLower(k)] = append(setBy[strings.ToLower(k)], f)
+						}
+					}
+				}
+			}
+			return true
+		})
+	}
+	marker := ""
+	getTexts := map[string][]string{} // lower-cased header name → texts of the Get calls in the rewriter
+	decls20 := map[types.Object]*ast.FuncDecl{}
+	for _, f := range allFuncDecls(p) {
+		if f != fd {
+			decls20[info.Defs[f.Name]] = f
 		}
-		kind := ""
-		ast.Inspect(is, func(n ast.Node) bool {
+	}
+	var scanGets func(f *ast.FuncDecl, depth int)
+	scanGets = func(f *ast.FuncDecl, depth int) {
+		ast.Inspect(f.Body, func(n ast.Node) bool {
 			if call, ok := n.(*ast.CallExpr); ok {
 				if se, ok := call.Fun.(*ast.SelectorExpr); ok && se.Sel.Name == "Get" && len(call.Args) == 1 {
-					if s, ok := constString(info, call.Args[0]); ok {
-						if strings.EqualFold(s, "Content-Type") {
-							kind = "content-type"
-						} else if !strings.EqualFold(s, "Content-Encoding") && !strings.EqualFold(s, "Content-Security-Policy") && n.Pos() < is.Body.Pos() {
-							if kind == "" {
-								kind = "marker"
-								marker = s
+					if k, ok := constString(info, call.Args[0]); ok {
+						getTexts[strings.ToLower(k)] = append(getTexts[strings.ToLower(k)], types.ExprString(call))
+						if len(setBy[strings.ToLower(k)]) > 0 && marker == "" {
+							marker = k
+						}
+					}
+				}
+			}
+			return true
+		})
+	}
+	scanGets(fd, 0)
+	if marker == "" {
+		c.viol("C20.R3", "anchor-lost:marker-set", "", "no header that the rewriter tests is set to \"true\" anywhere in the package: requests that must not be rewritten (HTMX partial responses) cannot be marked")
+	} else {
+		pkgInits := map[types.Object]ast.Expr{}
+		for _, f := range p.Syntax {
+			for _, d := range f.Decls {
+				if gd, ok := d.(*ast.GenDecl); ok && gd.Tok == token.VAR {
+					for _, sp := range gd.Specs {
+						vs := sp.(*ast.ValueSpec)
+						for i, nm := range vs.Names {
+							if i < len(vs.Values) {
+								pkgInits[info.Defs[nm]] = vs.Values[i]
 							}
 						}
 					}
 				}
 			}
-			return n != ast.Node(is.Body)
-		})
-		if kind == "" {
-			continue
 		}
-		returns := len(is.Body.List) > 0
-		if returns {
-			_, isRet := is.Body.List[len(is.Body.List)-1].(*ast.ReturnStmt)
-			returns = isRet
-		}
-		before := true
-		for _, m := range mutations {
-			if m.Pos() < is.End() {
-				before = false
-			}
-		}
-		// also before the body is read
-		skipTests++
-		okShape := returns && before
-		if kind == "content-type" {
-			okShape = okShape && strings.Contains(text, "text/html") && strings.Contains(text, "!")
+		den := &denum{info: info, pkg: p.Types, inits: pkgInits, limit: 50000, opaqueLoops: true, decls: decls20}
+		den.finish(den.run(fd.Body.List, []dstate{{env: map[types.Object]ast.Expr{}}}))
+		if den.undecided != "" {
+			c.undec("C20.R3", key+"|skip-tests", c.pos(fd.Pos()), "the rewriter contains "+den.undecided)
 		} else {
-			okShape = okShape && strings.Contains(text, `== "true"`)
-		}
-		c.check(okShape, "C20.R3", key+"|skip-test:"+kind, c.pos(is.Pos()), "returns before any mutation: "+text,
-			"the "+kind+" skip test no longer returns before the response is mutated: "+text)
-	}
-	if skipTests < 2 {
-		c.viol("C20.R3", key+"|skip-tests", c.pos(fd.Pos()), fmt.Sprintf("expected a marker-header test and a content-type test at the top of the rewriter, found %d", skipTests))
-	}
-	// round tripper: marker set only for HX-Request == "true"
-	nSet := 0
-	for _, f := range allFuncDecls(p) {
-		ast.Inspect(f.Body, func(n ast.Node) bool {
-			call, ok := n.(*ast.CallExpr)
-			if !ok || len(call.Args) != 2 {
-				return true
-			}
-			se, ok := call.Fun.(*ast.SelectorExpr)
-			if !ok || se.Sel.Name != "Set" {
-				return true
-			}
-			s, ok := constString(info, call.Args[0])
-			if !ok || marker == "" || !strings.EqualFold(s, marker) {
-				return true
-			}
-			nSet++
-			// a preceding top-level guard `if <Header.Get("HX-Request")> != "true" { return }`
-			guarded := false
-			for _, st := range f.Body.List {
-				if st.End() > call.Pos() {
-					break
-				}
-				if is, ok := st.(*ast.IfStmt); ok {
-					txt := types.ExprString(is.Cond)
-					if strings.Contains(txt, `"HX-Request"`) && strings.Contains(txt, `!= "true"`) && len(is.Body.List) > 0 {
-						if _, isRet := is.Body.List[len(is.Body.List)-1].(*ast.ReturnStmt); isRet {
-							guarded = true
+			mutates := func(pth dpath) bool {
+				m := false
+				for _, st := range pth.Trace {
+					ast.Inspect(st, func(n ast.Node) bool {
+						switch x := n.(type) {
+						case *ast.AssignStmt:
+							for _, l := range x.Lhs {
+								if se, ok := l.(*ast.SelectorExpr); ok {
+									if id, ok := se.X.(*ast.Ident); ok && info.ObjectOf(id) == resp {
+										m = true
+									}
+								}
+							}
+						case *ast.CallExpr:
+							if se, ok := x.Fun.(*ast.SelectorExpr); ok && (se.Sel.Name == "Set" || se.Sel.Name == "Del" || se.Sel.Name == "Add") {
+								if strings.HasPrefix(types.ExprString(se.X), resp.Name()+".Header") {
+									m = true
+								}
+							}
+							// the body is consumed
+							if fn := calleeOf(info, x); fn != nil && (fullName(fn) == "io.ReadAll") {
+								m = true
+							}
+							// handed to a helper that takes the response
+							if fn := calleeOf(info, x); fn != nil && fn.Pkg() == p.Types {
+								for _, a := range x.Args {
+									if id, ok := ast.Unparen(a).(*ast.Ident); ok && info.ObjectOf(id) == resp {
+										m = true
+									}
+								}
+							}
 						}
+						return true
+					})
+				}
+				return m
+			}
+			encProbe := ""
+			encSet := false
+			probe := func(markerVal, ctype string) (mutating, total int) {
+				ce := newCenv(info, p.Types, allFuncDecls(p))
+				ce.inits = pkgInits
+				if encSet {
+					for _, t := range getTexts["content-encoding"] {
+						ce.byText[t] = constant.MakeString(encProbe)
 					}
 				}
+				for _, t := range getTexts[strings.ToLower(marker)] {
+					ce.byText[t] = constant.MakeString(markerVal)
+				}
+				for _, t := range getTexts["content-type"] {
+					ce.byText[t] = constant.MakeString(ctype)
+				}
+				for _, pth := range den.paths {
+					if !ce.feasible(pth) {
+						continue
+					}
+					total++
+					if mutates(pth) {
+						mutating++
+					}
+				}
+				return
 			}
-			// or enclosed in `if … == "true" {`
-			ast.Inspect(f.Body, func(m ast.Node) bool {
-				if is, ok := m.(*ast.IfStmt); ok && is.Body.Pos() <= call.Pos() && call.End() <= is.Body.End() {
-					txt := types.ExprString(is.Cond)
-					if strings.Contains(txt, `"HX-Request"`) && strings.Contains(txt, `== "true"`) {
-						guarded = true
+			m1, t1 := probe("true", "text/html; charset=utf-8")
+			c.check(m1 == 0 && t1 > 0, "C20.R3", key+"|skip-test:marker", c.pos(fd.Pos()), fmt.Sprintf("with %s: true all %d feasible path(s) leave the response untouched", marker, t1),
+				fmt.Sprintf("with the skip marker %s set to \"true\", %d of %d feasible paths of the rewriter still mutate the response: HTMX partial responses get the reload script appended", marker, m1, t1))
+			bad := ""
+			for _, ct := range []string{"application/json", "text/plain; charset=utf-8", "", "image/png", "text/css"} {
+				if m2, t2 := probe("", ct); m2 != 0 || t2 == 0 {
+					bad = fmt.Sprintf("Content-Type %q: %d of %d feasible paths mutate the response", ct, m2, t2)
+				}
+			}
+			c.check(bad == "", "C20.R3", key+"|skip-test:content-type", c.pos(fd.Pos()), "responses that are not text/html leave untouched on every feasible path",
+				"the content-type skip test no longer returns before the response is mutated: "+bad)
+			// unknown content encodings: the body cannot be decoded, so nothing may be touched; known ones are rewritten
+			encSet = true
+			badEnc := ""
+			for _, enc := range []string{"deflate", "zstd", "compress", "x-gzip, br", "identity;q=0"} {
+				encProbe = enc
+				if m, t := probe("", "text/html; charset=utf-8"); m != 0 || t == 0 {
+					badEnc = fmt.Sprintf("Content-Encoding %q: %d of %d feasible paths mutate the response", enc, m, t)
+				}
+			}
+			c.check(badEnc == "", "C20.R2", key+"|switch:Content-Encoding|has-default", c.pos(fd.Pos()), "a response in an encoding the proxy cannot decode is left untouched on every feasible path",
+				"unknown encodings are rewritten as if they were identity: "+badEnc+" — compressed bytes are parsed as HTML, re-serialised and sent under the original Content-Encoding")
+			for _, enc := range []string{"", "gzip", "br"} {
+				encProbe = enc
+				m, _ := probe("", "text/html; charset=utf-8")
+				c.check(m > 0, "C20.R2", fmt.Sprintf("%s|encoding %q is rewritten", key, enc), c.pos(fd.Pos()), "a mutating path exists", fmt.Sprintf("no path rewrites a text/html response with Content-Encoding %q: the reload script is not inserted for it", enc))
+			}
+			encSet = false
+			m3, t3 := probe("", "text/html; charset=utf-8")
+			c.check(m3 > 0, "C20.R3", key+"|skip-tests", c.pos(fd.Pos()), fmt.Sprintf("an unmarked text/html response is rewritten (%d of %d feasible paths mutate it)", m3, t3),
+				"no path of the rewriter mutates an unmarked text/html response: the reload script is never inserted")
+		}
+		// the marker is set only for requests that carry HX-Request: true
+		for _, f := range setBy[strings.ToLower(marker)] {
+			fden := &denum{info: info, pkg: p.Types, inits: map[types.Object]ast.Expr{}, limit: 5000, opaqueLoops: true}
+			fden.finish(fden.run(f.Body.List, []dstate{{env: map[types.Object]ast.Expr{}}}))
+			fkey := funcKey(p, f) + "|marker-only-for-htmx"
+			if fden.undecided != "" {
+				c.undec("C20.R3", fkey, c.pos(f.Pos()), f.Name.Name+" contains "+fden.undecided)
+				continue
+			}
+			var hxTexts []string
+			ast.Inspect(f.Body, func(n ast.Node) bool {
+				if call, ok := n.(*ast.CallExpr); ok {
+					if se, ok := call.Fun.(*ast.SelectorExpr); ok && se.Sel.Name == "Get" && len(call.Args) == 1 {
+						if k, ok := constString(info, call.Args[0]); ok && strings.EqualFold(k, "HX-Request") {
+							hxTexts = append(hxTexts, types.ExprString(call))
+						}
 					}
 				}
 				return true
 			})
-			c.check(guarded, "C20.R3", funcKey(p, f)+"|marker-only-for-htmx", c.pos(call.Pos()), "the skip marker is set only when HX-Request is \"true\"",
-				"the skip marker is set without the HX-Request == \"true\" guard: ordinary page loads would lose the reload script")
-			return true
-		})
-	}
-	if nSet == 0 {
-		c.viol("C20.R3", "anchor-lost:marker-set", "", "nothing sets the skip marker header "+marker)
+			sets := func(pth dpath) bool {
+				s := false
+				for _, st := range pth.Trace {
+					ast.Inspect(st, func(n ast.Node) bool {
+						if call, ok := n.(*ast.CallExpr); ok && len(call.Args) == 2 {
+							if se, ok := call.Fun.(*ast.SelectorExpr); ok && se.Sel.Name == "Set" {
+								if k, ok := constString(info, call.Args[0]); ok && strings.EqualFold(k, marker) {
+									s = true
+								}
+							}
+						}
+						return true
+					})
+				}
+				return s
+			}
+			count := func(hx string) (setting, total int) {
+				ce := newCenv(info, p.Types, allFuncDecls(p))
+				for _, t := range hxTexts {
+					ce.byText[t] = constant.MakeString(hx)
+				}
+				for _, pth := range fden.paths {
+					if !ce.feasible(pth) {
+						continue
+					}
+					total++
+					if sets(pth) {
+						setting++
+					}
+				}
+				return
+			}
+			sNo, _ := count("")
+			sFalse, _ := count("false")
+			sYes, tYes := count("true")
+			c.check(len(hxTexts) > 0 && sNo == 0 && sFalse == 0 && sYes == tYes && tYes > 0, "C20.R3", fkey, c.pos(f.Pos()), "the skip marker is set exactly when HX-Request is \"true\"",
+				fmt.Sprintf("%s sets the skip marker on %d path(s) without HX-Request, %d with HX-Request: false, and %d of %d with HX-Request: true: ordinary page loads would lose the reload script (or HTMX responses would get it)", f.Name.Name, sNo, sFalse, sYes, tYes))
+		}
 	}
 
 	// R4, R5 ------------------------------------------------------------
